@@ -134,6 +134,12 @@ AsErr(r)   == Err(r.e, r.f)
 Prefill(fill, i) == CASE fill = 0 -> 170 [] fill = 1 -> (7 * (i - 1) + 3) % 256 [] fill = 2 -> 0
                       \* mode 4: a reused buffer that still holds the image written last in this session
                       [] fill = 4 -> (IF i <= Len(img) THEN img[i] ELSE 170)
+                      \* mode 5: a dirty buffer whose bytes at the end of the announced size look like the padding trailer
+                      \* of the configuration about to be written (zeros and the requested padding count)
+                      [] fill = 5 -> LET n == IF ~IsNone(bld.cfg) /\ Accepts(bld.cfg) THEN Size(bld.cfg) ELSE 0
+                                     IN  IF n >= 4 /\ i \in (n - 3)..n
+                                         THEN (IF i = n THEN PaddingOf(bld.cfg) ELSE 0)
+                                         ELSE (7 * (i - 1) + 3) % 256
                       [] OTHER -> 255
 
 IsPacketKind(c) == c.kind \notin {"item", "chunk"}
@@ -548,6 +554,7 @@ PacketContentEq(v, w) ==
 PadPairConf(kind, b, n, padded, res, resp) ==
     (P("C13") /\ IsOk(res) /\ ~PBit(b)) =>
           /\ IsOk(resp)
+          /\ Has(resp, "fresh_same") => resp.fresh_same          \* whatever the order in which the padded value is read
           /\ IF kind = "packet"
              THEN /\ resp.view.phdr.length = Len(b) + n /\ resp.view.phdr.count = res.view.phdr.count
                   /\ resp.view.variant \in PacketKinds => resp.view.inner.hdr.padding = n
@@ -811,6 +818,8 @@ Conf(ev) ==
                       /\ Has(ev, "alt") =>
                             /\ AltOk(ev.alt_seq, ev.alt)
                             /\ Len(ev.alt_seq) <= Len(tl.tiles)
+                            \* iteration runs to the last tile unless an item failed
+                            /\ (Len(ev.alt_seq) = Len(tl.tiles) \/ (ev.alt_seq # <<>> /\ ev.alt_seq[Len(ev.alt_seq)][1] = 0))
                             /\ \A i \in 1..Len(ev.alt_seq) : ev.alt_seq[i][1] = 1 => ev.alt_seq[i][3] = tl.tiles[i][2]
                 \* C14 / C19: the image of a compound with at least one leaf packet parses as a compound
                 /\ ((P("C14") \/ P("C19")) /\ RtCtx(ev) /\ bld.cfg.kind = "compound" /\ Leaves(bld.cfg) # <<>>) =>
